@@ -124,11 +124,13 @@ func main() {
 }
 
 type rewriter struct {
-	fset     *token.FileSet
-	file     string
-	used     bool // vsched referenced
-	changed  bool
-	timePkg  bool
+	fset    *token.FileSet
+	file    string
+	used    bool // vsched referenced
+	changed bool
+	timePkg bool
+	tmpN    int
+	hoists  []ast.Stmt // temporaries to declare ahead of the statement being rewritten
 }
 
 func (r *rewriter) pos(n ast.Node) string {
@@ -220,7 +222,12 @@ func (r *rewriter) expr(e ast.Expr, recvs *[]ast.Expr) {
 					r.unsupported(x, "receive in an unsupported position")
 				}
 				if !pureOperand(x.X) {
-					r.unsupported(x, "receive from a non-trivial channel expression")
+					// <-f(...): evaluate the channel once into a temporary ahead of the statement,
+					// announce the receive on it, receive from it
+					r.expr(x.X, recvs)
+					x.X = r.hoist(x.X)
+					*recvs = append(*recvs, x.X)
+					return false
 				}
 				*recvs = append(*recvs, x.X)
 			}
@@ -235,7 +242,13 @@ func (r *rewriter) expr(e ast.Expr, recvs *[]ast.Expr) {
 					case "NewTimer":
 						x.Fun = sel("NewTimer")
 						r.used, r.changed = true, true
-					case "After", "AfterFunc", "Tick", "NewTicker":
+					case "After":
+						x.Fun = sel("After")
+						r.used, r.changed = true, true
+					case "AfterFunc":
+						x.Fun = sel("AfterFunc")
+						r.used, r.changed = true, true
+					case "Tick", "NewTicker":
 						r.unsupported(x, "time."+se.Sel.Name)
 					}
 				}
@@ -257,8 +270,18 @@ func pureOperand(e ast.Expr) bool {
 	return false
 }
 
+// hoist declares a fresh temporary holding e ahead of the current statement and returns it.
+func (r *rewriter) hoist(e ast.Expr) ast.Expr {
+	id := ast.NewIdent(fmt.Sprintf("vschedCh%d", r.tmpN))
+	r.tmpN++
+	r.hoists = append(r.hoists, &ast.AssignStmt{Lhs: []ast.Expr{id}, Tok: token.DEFINE, Rhs: []ast.Expr{e}})
+	r.changed = true
+	return id
+}
+
 func (r *rewriter) recvStmts(recvs []ast.Expr) []ast.Stmt {
-	var out []ast.Stmt
+	out := r.hoists
+	r.hoists = nil
 	for _, ch := range recvs {
 		out = append(out, &ast.ExprStmt{X: call("Recv", ch)})
 		r.used, r.changed = true, true
@@ -475,6 +498,15 @@ func (r *rewriter) selectStmt(s *ast.SelectStmt) ast.Stmt {
 	var cases []ast.Expr
 	sw := &ast.SwitchStmt{Body: &ast.BlockStmt{}}
 	idx := 0
+	// channel operands that are calls (ctx.Done(), time.After(d)) are evaluated once, in source
+	// order, into temporaries ahead of the statement: exactly what select itself does on entry
+	var pre []ast.Stmt
+	selHoist := func(e ast.Expr) ast.Expr {
+		id := ast.NewIdent(fmt.Sprintf("vschedCh%d", r.tmpN))
+		r.tmpN++
+		pre = append(pre, &ast.AssignStmt{Lhs: []ast.Expr{id}, Tok: token.DEFINE, Rhs: []ast.Expr{e}})
+		return id
+	}
 	for _, c := range s.Body.List {
 		cc := c.(*ast.CommClause)
 		body := r.stmts(cc.Body)
@@ -493,8 +525,12 @@ func (r *rewriter) selectStmt(s *ast.SelectStmt) ast.Stmt {
 			cases = append(cases, call("SendCase", x.Chan))
 		case *ast.ExprStmt:
 			u, ok := x.X.(*ast.UnaryExpr)
-			if !ok || u.Op != token.ARROW || !pureOperand(u.X) {
+			if !ok || u.Op != token.ARROW {
 				r.unsupported(x, "select receive form")
+			}
+			if !pureOperand(u.X) {
+				r.expr(u.X, nil)
+				u.X = selHoist(u.X)
 			}
 			cases = append(cases, call("RecvCase", u.X))
 		case *ast.AssignStmt:
@@ -502,8 +538,12 @@ func (r *rewriter) selectStmt(s *ast.SelectStmt) ast.Stmt {
 				r.unsupported(x, "select receive form")
 			}
 			u, ok := x.Rhs[0].(*ast.UnaryExpr)
-			if !ok || u.Op != token.ARROW || !pureOperand(u.X) {
+			if !ok || u.Op != token.ARROW {
 				r.unsupported(x, "select receive form")
+			}
+			if !pureOperand(u.X) {
+				r.expr(u.X, nil)
+				u.X = selHoist(u.X)
 			}
 			cases = append(cases, call("RecvCase", u.X))
 		default:
@@ -522,5 +562,9 @@ func (r *rewriter) selectStmt(s *ast.SelectStmt) ast.Stmt {
 	args := append([]ast.Expr{ast.NewIdent(hasDefault)}, cases...)
 	sw.Tag = call("Select", args...)
 	// free-running mode (no controlled execution in progress): keep the native select
-	return &ast.IfStmt{Cond: call("Controlled"), Body: &ast.BlockStmt{List: []ast.Stmt{sw}}, Else: &ast.BlockStmt{List: []ast.Stmt{s}}}
+	ifs := &ast.IfStmt{Cond: call("Controlled"), Body: &ast.BlockStmt{List: []ast.Stmt{sw}}, Else: &ast.BlockStmt{List: []ast.Stmt{s}}}
+	if len(pre) == 0 {
+		return ifs
+	}
+	return &ast.BlockStmt{List: append(pre, ifs)}
 }
